@@ -96,7 +96,7 @@ var plural = map[string]string{
 
 var allKinds = []string{"schema", "parameter", "header", "response", "requestBody", "example", "securityScheme", "pathItem"}
 
-var weirdNames = []string{"a/b", "m~n", "c d", "c%d", "e~1f", "p%20q", "x/y~z", "é"}
+var weirdNames = []string{"a/b", "m~n", "c d", "c%d", "e~1f", "p%20q", "x/y~z", "né"}
 
 type comp struct {
 	kind  string
@@ -107,6 +107,14 @@ type comp struct {
 	body  *V
 	sites int
 	id    int
+	fam   int // id of the component the alias chain ends in (0: itself)
+}
+
+func (c *comp) family() int {
+	if c.fam != 0 {
+		return c.fam
+	}
+	return c.id
 }
 
 type opS struct {
@@ -259,7 +267,7 @@ func (b *gb) schemaBody(file string, depth int) (*V, bool) {
 		return b.primSchema(), true
 	}
 	nestedOrPrim := func() *V {
-		if r.Chance(30) {
+		if r.Chance(20) {
 			h := b.helperSchema(file, depth+1)
 			return b.ref(h, file)
 		}
@@ -376,7 +384,7 @@ func (b *gb) homeFile() string {
 }
 
 func (b *gb) schemaOrRef(file string, wantPrim bool) *V {
-	if b.rng.Chance(40) {
+	if b.rng.Chance(25) {
 		if wantPrim {
 			var cands []*comp
 			for _, c := range b.comps {
@@ -732,11 +740,11 @@ func (b *gb) addResponse(o *opS, rb *V) {
 }
 
 func (b *gb) opUses(o *opS, c *comp) bool {
-	return o.node.Get(fmt.Sprintf("x-c07-uses-%d", c.id)) != nil
+	return o.node.Get(fmt.Sprintf("x-c07-uses-%d", c.family())) != nil
 }
 
 func (b *gb) markUse(o *opS, c *comp) {
-	set(o.node, fmt.Sprintf("x-c07-uses-%d", c.id), true)
+	set(o.node, fmt.Sprintf("x-c07-uses-%d", c.family()), true)
 }
 
 func shuffled(r *ev.Rand, xs []string) []string {
@@ -779,12 +787,12 @@ func GenGraph(rng *ev.Rand) (FileSet, []string) {
 
 	nfeat := 1
 	switch r := rng.Intn(100); {
-	case r < 45:
+	case r < 50:
 		nfeat = 1
-	case r < 70:
+	case r < 80:
 		nfeat = 2
 	default:
-		nfeat = 3 + rng.Intn(3)
+		nfeat = 3 + rng.Intn(2)
 	}
 	var featured []string
 	for i := 0; i < nfeat; i++ {
@@ -964,8 +972,10 @@ func (b *gb) alias(target *comp, file, container string) *comp {
 	if kind == "pathItem" && file == b.root && container == "components" {
 		b.v31 = true
 	}
-	// the target is referenced through the alias: it needs one more site at most
-	b.comps = append(b.comps, target)
-	a := &comp{kind: kind, id: id, file: file, ptr: []string{container, plural[kind], name}, body: target.body, prim: target.prim, pathP: target.pathP}
+	// the target is referenced through the alias; sometimes it also gets sites of its own
+	if b.rng.Chance(50) {
+		b.comps = append(b.comps, target)
+	}
+	a := &comp{kind: kind, id: id, file: file, ptr: []string{container, plural[kind], name}, body: target.body, prim: target.prim, pathP: target.pathP, fam: target.family()}
 	return a
 }
